@@ -273,6 +273,7 @@ fn simple_spec(r: &mut Rng, on_run: bool) -> ActorSpec {
             steps: if r.chance(20) { vec![Step::Busy(r.below(80))] } else { vec![] },
             out: if r.chance(5) { Out::Err } else { Out::Ok },
         },
+        run_err_when_handled: None,
         in_peers: false,
     }
 }
@@ -611,6 +612,8 @@ fn absorb(tot: &Mutex<Tot>, prop: &str, profile: &str, seed: u64, out: &RoundOut
 // ---------------------------------------------------------------------------------------------
 // blocking profile (C17, blocking side of C10 and C13)
 // ---------------------------------------------------------------------------------------------
+static SERIALIZATION_CHECKED: AtomicU64 = AtomicU64::new(0);
+
 fn round_blocking(rt: &tokio::runtime::Runtime, seed: u64, hb: &Heartbeat, tot: &Mutex<Tot>, prop: &str) {
     let mut r = Rng::new(seed);
     let sh = Shared::new(1, 1, false, false, seed);
@@ -620,6 +623,7 @@ fn round_blocking(rt: &tokio::runtime::Runtime, seed: u64, hb: &Heartbeat, tot: 
         start: HookScript::default(),
         run: vec![],
         stop: HookScript::default(),
+        run_err_when_handled: None,
         in_peers: false,
     };
     let (a, jh) = {
@@ -644,6 +648,26 @@ fn round_blocking(rt: &tokio::runtime::Runtime, seed: u64, hb: &Heartbeat, tot: 
     }
     for _ in 0..cap {
         send_blocking(&sh, Ctx::Main, 0, &a, BKind::Tell, Body::plain(uid()));
+    }
+    // 1b. (first round of a run only) a long timed blocking call in flight must not delay another thread's short one
+    if SERIALIZATION_CHECKED.fetch_add(1, Ordering::Relaxed) == 0 {
+        let (a1, sh1) = (a.clone(), sh.clone());
+        let long = std::thread::spawn(move || send_blocking(&sh1, Ctx::Client(40), 0, &a1, BKind::AskTo(3000), Body::plain(uid())));
+        std::thread::sleep(Duration::from_millis(60));
+        let (a2, sh2) = (a.clone(), sh.clone());
+        let short = std::thread::spawn(move || send_blocking(&sh2, Ctx::Client(41), 0, &a2, BKind::TellTo(20), Body::plain(uid())));
+        let (sres, sel) = short.join().unwrap();
+        *o.entry("C17.deadline").or_default() += 1;
+        *o.entry("C10.independent_deadlines").or_default() += 1;
+        if sres != Res::Timeout {
+            v.push(("C17.deadline".into(), format!("blocking_tell(Some(20 ms)) against a full mailbox returned {sres:?}")));
+        } else if sel > Duration::from_millis(2020) && hb.max_late_since(bucket0) < STALL_US {
+            v.push(("C10.late".into(), format!("blocking_tell(Some(20 ms)) returned its Timeout only after {sel:?} while another thread's blocking_ask(Some(3 s)) was in flight: timed blocking calls delay each other")));
+        }
+        let (lres, lel) = long.join().unwrap();
+        if lres != Res::Timeout || lel < Duration::from_millis(3000) {
+            v.push(("C10.early".into(), format!("blocking_ask(Some(3 s)) against a full, gated mailbox returned {lres:?} after {lel:?}")));
+        }
     }
     // 2. timed blocking calls against the full mailbox: must time out, never early, and return by deadline + slack
     let to_ms = 4 + 2 * r.below(16);
@@ -782,6 +806,30 @@ fn round_blocking(rt: &tokio::runtime::Runtime, seed: u64, hb: &Heartbeat, tot: 
     if !joined {
         hung_actors = 1;
     } else {
+        // from async code on a current-thread runtime: a dead actor must be reported, not waited for
+        for kind in [BKind::AskTo(50), BKind::TellTo(50)] {
+            let (a2, sh2) = (a.clone(), sh.clone());
+            let (tx, rx) = std::sync::mpsc::channel();
+            std::thread::spawn(move || {
+                let ct = tokio::runtime::Builder::new_current_thread().enable_time().build().unwrap();
+                let r = ct.block_on(async { send_blocking(&sh2, Ctx::Client(14), 0, &a2, kind, Body::plain(uid())) });
+                let _ = tx.send(r);
+            });
+            *o.entry("C17.dead_actor").or_default() += 1;
+            *o.entry("C03.after_end").or_default() += 1;
+            match rx.recv_timeout(Duration::from_secs(10)) {
+                Ok((res, _)) => {
+                    if res != Res::Send {
+                        v.push(("C17.dead_actor".into(), format!("{kind:?} from a current-thread runtime on a dead actor returned {res:?}")));
+                    }
+                }
+                Err(_) => {
+                    if hb.max_late_since(bucket0) < STALL_US {
+                        v.push(("C03.complete".into(), format!("[ct-runtime] {kind:?} on an actor whose JoinHandle had resolved, called from async code on a current-thread runtime, did not return within 10 s")));
+                    }
+                }
+            }
+        }
         for kind in [BKind::Tell, BKind::Ask, BKind::TellTo(50), BKind::AskTo(50), BKind::DepTell(1), BKind::ErasedAsk(Some(50))] {
             let (res, el) = send_blocking(&sh, Ctx::Main, 0, &a, kind, Body::plain(uid()));
             *o.entry("C17.dead_actor").or_default() += 1;
@@ -815,6 +863,103 @@ fn round_blocking(rt: &tokio::runtime::Runtime, seed: u64, hb: &Heartbeat, tot: 
         let p = &c[..3];
         if prop == "all" || prop == p || prop == "C17" {
             t.viol.push((c, m, seed, "blocking".to_string()));
+        }
+    }
+}
+
+// ---------------------------------------------------------------------------------------------
+// starved caller (C10): the outcome is available before the deadline but the calling task is only polled after it
+// ---------------------------------------------------------------------------------------------
+fn round_starve(seed: u64, hb: &Heartbeat, tot: &Mutex<Tot>, prop: &str) {
+    let mut r = Rng::new(seed);
+    let rt = tokio::runtime::Builder::new_current_thread().enable_time().build().unwrap();
+    let sh = Shared::new(1, 1, false, false, seed);
+    let variant = 2 * r.below(2); // 0: ask whose reply is early; 2: tell whose mailbox slot is early
+    let spec = ActorSpec { cap: Some(if variant == 2 { 1 } else { 4 }), start: HookScript::default(), run: vec![], stop: HookScript::default(), run_err_when_handled: None, in_peers: false };
+    let bucket0 = hb.now_bucket();
+    let to_ms = 40 + r.below(20);
+    let block_us = (to_ms + 40) * 1000;
+    let out = rt.block_on(async {
+        let (a, jh) = spawn_sa(&sh, 0, &spec);
+        sh.model_add(0, 1, "spawner");
+        let w = tokio::spawn(watch(sh.clone(), 0, jh));
+        // let the actor finish on_start and go idle
+        for _ in 0..3 {
+            tokio::task::yield_now().await;
+        }
+        // On this single-threaded runtime tasks run in spawn order. The caller (A) goes first; the helper (B) queues a
+        // message that burns wall time inside its handler; the actor then produces A's outcome and, in the same poll,
+        // blocks the thread past A's deadline. A is polled again only afterwards.
+        let (sh_a, h_a) = (sh.clone(), H::D(a.clone()));
+        let (sh_b, h_b) = (sh.clone(), H::D(a.clone()));
+        let (ta, tb);
+        if variant == 0 {
+            ta = tokio::spawn(async move {
+                let t0 = Instant::now();
+                let res = send_via(&sh_a, Ctx::Client(0), 0, &h_a, SendKind::AskTo(to_ms), MTy::U, Body::plain(uid())).await;
+                (res, t0.elapsed())
+            });
+            tb = tokio::spawn(async move {
+                send_via(&sh_b, Ctx::Client(1), 0, &h_b, SendKind::Tell, MTy::U, Body { uid: uid(), flags: 0, steps: vec![Step::Busy(block_us)] }).await;
+            });
+        } else {
+            // capacity 1: B fills the mailbox with the slow message first, A parks; taking B's message frees A's slot early
+            tb = tokio::spawn(async move {
+                send_via(&sh_b, Ctx::Client(1), 0, &h_b, SendKind::Tell, MTy::U, Body { uid: uid(), flags: 0, steps: vec![Step::Busy(block_us)] }).await;
+            });
+            ta = tokio::spawn(async move {
+                let t0 = Instant::now();
+                let res = send_via(&sh_a, Ctx::Client(0), 0, &h_a, SendKind::TellTo(to_ms), MTy::U, Body::plain(uid())).await;
+                (res, t0.elapsed())
+            });
+        }
+        let _ = tb.await;
+        let out = ta.await.unwrap();
+        let h = H::D(a.clone());
+        stop_via(&sh, Ctx::Main, 0, &h).await;
+        drop(h);
+        drop(a);
+        sh.model_add(0, -1, "drop");
+        let _ = tokio::time::timeout(Duration::from_secs(10), w).await;
+        out
+    });
+    let (res, el) = out;
+    let ids = sh.ids.lock().unwrap().clone();
+    let log = sh.log.snapshot();
+    for id in ids.iter() {
+        reg_remove(*id);
+    }
+    // when was the outcome available? (wall microseconds since round start, same clock as the call's start stamp)
+    let start = log.iter().find_map(|e| match &e.k { K::CallStart { kind: OpKind::AskTo | OpKind::TellTo, .. } => Some(e.t), _ => None }).unwrap_or(0);
+    let outcome_at = log.iter().find_map(|e| match &e.k {
+        K::HExit { .. } if variant == 0 => Some(e.t),
+        K::HEnter { .. } if variant == 2 => Some(e.t),
+        _ => None,
+    });
+    let mut t = tot.lock().unwrap();
+    t.rounds += 1;
+    t.events += log.len() as u64;
+    *t.nontrivial.entry("C10".into()).or_default() += 1;
+    t.hashes.insert(mix(variant, to_ms));
+    let stalled = hb.max_late_since(bucket0) > STALL_US;
+    if let Some(oa) = outcome_at {
+        let margin_us = 15_000;
+        if oa + margin_us < start + to_ms * 1000 && !stalled {
+            // the outcome existed well before the deadline
+            *t.obl.entry("C10.outcome_before_deadline").or_default() += 1;
+            let late_poll = el > Duration::from_millis(to_ms);
+            if late_poll {
+                *t.obl.entry("C10.starved_caller").or_default() += 1;
+            }
+            let good = res.is_ok();
+            if !good && (prop == "C10" || prop == "all") {
+                t.viol.push((
+                    "C10.masked".into(),
+                    format!("the {} was available {} us after the call started, well before the {to_ms} ms deadline, but the caller (polled again only after {el:?}) got {res:?}", ["reply", "", "mailbox slot"][variant as usize], oa.saturating_sub(start)),
+                    seed,
+                    "starve".into(),
+                ));
+            }
         }
     }
 }
@@ -1228,7 +1373,7 @@ pub fn cmd_mt(a: &Args) -> i32 {
                         hs.push(tokio::spawn(async move {
                             let seed = mix(base, 0x510 + k as u64);
                             let sh = Shared::new(1, 1, false, false, seed);
-                            let spec = ActorSpec { cap: Some(4), start: HookScript::default(), run: vec![], stop: HookScript::default(), in_peers: false };
+                            let spec = ActorSpec { cap: Some(4), start: HookScript::default(), run: vec![], stop: HookScript::default(), run_err_when_handled: None, in_peers: false };
                             let (rf, jh) = spawn_sa(&sh, 0, &spec);
                             sh.model_add(0, 1, "spawner");
                             let w = tokio::spawn(watch(sh.clone(), 0, jh));
@@ -1257,6 +1402,16 @@ pub fn cmd_mt(a: &Args) -> i32 {
                     }
                 });
                 rt.shutdown_timeout(Duration::from_secs(2));
+            }
+            "starve" => {
+                let mut n = 0u64;
+                while tp.elapsed() < per_profile {
+                    n += 1;
+                    round_starve(mix(base, ((pi as u64) << 56) ^ n), &hb, &tot, &prop);
+                    if !tot.lock().unwrap().viol.is_empty() {
+                        break;
+                    }
+                }
             }
             "blocking" => {
                 let rt = tokio::runtime::Builder::new_multi_thread().worker_threads(8).max_blocking_threads(256).enable_time().build().unwrap();
@@ -1294,7 +1449,7 @@ pub fn cmd_mt(a: &Args) -> i32 {
     #[cfg(feature = "f_testutils")]
     {
         let d = rsactor::dead_letter_count() - dl0;
-        if !tainted.load(Ordering::Relaxed) && profiles.iter().all(|p| p != "spawnstorm" && p != "tightrace") {
+        if !tainted.load(Ordering::Relaxed) && profiles.iter().all(|p| p != "spawnstorm" && p != "tightrace" && p != "starve") {
             *t.obl.entry("C13.counter").or_default() += 1;
             t.extra.insert("dead_letter_count_delta".into(), d);
             let fl = t.failures;
